@@ -5,10 +5,10 @@
    No Extract Constant / Extract Inductive directive of our own. *)
 From Coq Require Extraction ExtrOcamlBasic ExtrOcamlNativeString.
 From Coq Require Import NArith ZArith List.
-From NRF Require Import Net.Addr Net.Header Net.Queue Net.QueueRun Net.HeaderRun Env.Radio Env.World Drv.RF24 Drv.RF24Run Net.Node Net.Mesh Net.NodeRun Net.Replay Ble.Ble Ble.BleRun.
+From NRF Require Import Net.Addr Net.Header Net.Queue Net.QueueRun Net.HeaderRun Env.Radio Env.World Drv.RF24 Drv.RF24Run Net.Node Net.Mesh Net.NodeRun Net.Replay Ble.Ble Ble.BleRun Drv.Lite Drv.LiteRun.
 Extraction Language OCaml.
 
 Extraction "../ocaml/gen/model.ml"
   is_address_valid lvl_2_addr begin_consts logi_2_phys pipe_address route tree_path
-  all_nodes run_queue run_header run_rf24 run_net run_replay run_ble new_world w_spi w_ce snap_radio put_airlog inject get_radio set_radio
+  all_nodes run_queue run_header run_rf24 run_net run_replay run_ble run_mixed new_world w_spi w_ce snap_radio put_airlog inject get_radio set_radio
   TX_NORMAL TX_ROUTED TX_PHYSICAL TX_LOGICAL TX_MULTICAST.
